@@ -6,6 +6,7 @@ import (
 	"time"
 
 	"github.com/IrineSistiana/mosdns/v5/pkg/upstream"
+	"github.com/IrineSistiana/mosdns/v5/pkg/upstream/transport"
 	"verif/sim/simnet"
 	"verif/sim/simrt"
 )
@@ -40,7 +41,27 @@ type c02cfg struct {
 	pDup     int
 	tieD     time.Duration
 	pRunt    int
+	// "history" family: one bare TraditionalDnsConn, calls separated by pauses,
+	// some abandoned by short deadlines before their (late, then unmatched) reply
+	hist     bool
+	histStream bool
+	pauses   [][]time.Duration
+	// "wrap" family: the wire-ID allocator is rewound onto IDs still outstanding
+	wrap     bool
 }
+
+// directConn drives one bare pipelined connection (no transport-level retry on
+// top of it), the observation point the property names.
+type directConn struct{ dc *transport.TraditionalDnsConn }
+
+func (d directConn) ExchangeContext(ctx context.Context, m []byte) (*[]byte, error) {
+	rx, closed := d.dc.ReserveNewQuery()
+	if rx == nil {
+		return nil, fmt.Errorf("direct connection refuses a new query (closed=%v)", closed)
+	}
+	return rx.ExchangeReserved(ctx, m)
+}
+func (d directConn) Close() error { return d.dc.Close() }
 
 func c02Setup(rc *RunCtx) simrt.Config {
 	r := rc.R
@@ -81,6 +102,45 @@ func c02Setup(rc *RunCtx) simrt.Config {
 		}
 		c.pClose, c.pReset, c.pDup = 0, 0, 0
 	}
+	if c.tieD == 0 {
+		switch r.Choose(8) {
+		case 0:
+			c.hist = true
+			c.histStream = r.Choose(2) == 0
+			c.kind = TkPipelineDgram
+			if c.histStream {
+				c.kind = TkPipelineStream
+			}
+			c.callers = 1 + r.Choose(2)
+			c.perCall, c.deadline, c.pauses = nil, nil, nil
+			for i := 0; i < c.callers; i++ {
+				n := 3 + r.Choose(widen(4, 8))
+				c.perCall = append(c.perCall, n)
+				c.deadline = append(c.deadline, 0) // drawn per call
+				var ps []time.Duration
+				for j := 0; j < n; j++ {
+					ps = append(ps, []time.Duration{0, 0, 100 * time.Millisecond, time.Second, 5 * time.Second, 9300 * time.Millisecond, 9600 * time.Millisecond, 9900 * time.Millisecond, 10100 * time.Millisecond}[r.Choose(9)])
+				}
+				c.pauses = append(c.pauses, ps)
+			}
+			c.pClose, c.pReset, c.pDup, c.pRunt = 0, 0, 0, 0
+			c.pZero = 40
+		case 1:
+			c.wrap = true
+			c.kind = []TransportKind{TkPipelineStream, TkPipelineDgram}[r.Choose(2)]
+			c.callers = 2 + r.Choose(widen(4, 8))
+			c.perCall, c.deadline = nil, nil
+			for i := 0; i < c.callers; i++ {
+				c.perCall = append(c.perCall, 1+r.Choose(widen(4, 6)))
+				c.deadline = append(c.deadline, []time.Duration{0, 20 * time.Second}[r.Choose(2)])
+			}
+			// scope: no reply may outlive its query across the emulated 65536 queries
+			c.pClose, c.pReset, c.pDup, c.pRunt = 0, 0, 0, 0
+			c.pZero = 30
+		}
+	}
+	rc.Cfg["history"] = c.hist
+	rc.Cfg["wrap"] = c.wrap
 	rc.Cfg["tie_ms"] = int(c.tieD / time.Millisecond)
 	rc.Net.ChunkMode = r.Choose(3)
 	// Connection breaks are observed by the reader only (after the reply), as in
@@ -111,6 +171,18 @@ func c02Main(rc *RunCtx) {
 			a.Delay = c.tieD
 			return a
 		}
+		if c.hist {
+			if simrt.Choose(100) >= c.pZero {
+				a.Delay = []time.Duration{time.Millisecond, 50 * time.Millisecond, 700 * time.Millisecond, 2500 * time.Millisecond}[simrt.Choose(4)]
+			}
+			return a
+		}
+		if c.wrap {
+			if simrt.Choose(100) >= c.pZero {
+				a.Delay = []time.Duration{time.Millisecond, 3 * time.Millisecond, 8 * time.Millisecond, 50 * time.Millisecond}[simrt.Choose(4)]
+			}
+			return a
+		}
 		if simrt.Choose(100) >= c.pZero {
 			a.Delay = []time.Duration{time.Millisecond, 50 * time.Millisecond, 999 * time.Millisecond, time.Second, 1001 * time.Millisecond, 2500 * time.Millisecond}[simrt.Choose(6)]
 		}
@@ -136,7 +208,56 @@ func c02Main(rc *RunCtx) {
 	rc.Net.Handle("tcp", srvAddr, serve)
 	rc.Net.OnEvent = func(e simnet.Event) { c02OnEvent(rc, w, e) }
 
-	u := w.NewTransport(c.kind, TransportOpts{MaxCQ: 0})
+	var u upstream.Upstream
+	switch {
+	case c.hist:
+		network := "udp"
+		if c.histStream {
+			network = "tcp"
+		}
+		nc, err := rc.Net.Dial(context.Background(), network, srvAddr)
+		if err != nil {
+			panic(err)
+		}
+		u = directConn{transport.NewDnsConn(transport.TraditionalDnsConnOpts{WithLengthHeader: c.histStream, IdleTimeout: 5 * time.Minute}, nc)}
+	case c.wrap:
+		stream := c.kind == TkPipelineStream
+		network := "udp"
+		if stream {
+			network = "tcp"
+		}
+		var dcs []*transport.TraditionalDnsConn
+		start := uint16(0xFFFF - simrt.Choose(4))
+		u = transport.NewPipelineTransport(transport.PipelineOpts{
+			DialContext: func(ctx context.Context) (transport.DnsConn, error) {
+				nc, err := rc.Net.Dial(ctx, network, srvAddr)
+				if err != nil {
+					return nil, err
+				}
+				dc := transport.NewDnsConn(transport.TraditionalDnsConnOpts{WithLengthHeader: stream}, nc)
+				dc.VerifSetNextQid(start)
+				dcs = append(dcs, dc)
+				return dc, nil
+			},
+		})
+		// the state after 65536 further queries: the allocator is back on IDs
+		// that may still be waiting for their reply
+		nrew := 1 + simrt.Choose(4)
+		simrt.GoNamed("rewind", func() {
+			for i := 0; i < nrew; i++ {
+				simrt.Sleep(0, time.Duration(1+simrt.Choose(6))*time.Millisecond)
+				for _, dc := range dcs {
+					if q, _ := dc.VerifQueueLen(); q > 0 {
+						simrt.Probe("c02.rewind_with_outstanding")
+					}
+					dc.VerifSetNextQid(start)
+				}
+				simrt.Fault("wire_id_rewind")
+			}
+		}).Daemon = true
+	default:
+		u = w.NewTransport(c.kind, TransportOpts{MaxCQ: 0})
+	}
 	c.u = u
 	done := make(chan struct{}, c.callers)
 	for ci := 0; ci < c.callers; ci++ {
@@ -144,7 +265,14 @@ func c02Main(rc *RunCtx) {
 		simrt.GoNamed(fmt.Sprintf("caller%d", ci), func() {
 			for s := 0; s < c.perCall[ci]; s++ {
 				call := w.NewCall(ci, s, uint16(simrt.Choose(65536)), 1)
-				if d := c.deadline[ci]; d > 0 {
+				d := c.deadline[ci]
+				if c.hist {
+					if p := c.pauses[ci][s]; p > 0 {
+						simrt.Sleep(0, p)
+					}
+					d = []time.Duration{0, 20 * time.Second, 5 * time.Second, time.Millisecond, 50 * time.Millisecond, time.Second}[simrt.Choose(6)]
+				}
+				if d > 0 {
 					ctx, cancel := context.WithTimeout(context.Background(), d)
 					call.Ctx, call.Cancel = ctx, cancel
 					call.Deadline = simrt.S.Elapsed() + d
@@ -155,6 +283,9 @@ func c02Main(rc *RunCtx) {
 				}
 				w.CheckProvenance(call)
 				c02CheckCall(rc, call, false)
+				if c.hist && rc.Viol == nil {
+					c02CheckHealthy(rc, call)
+				}
 				if rc.Viol != nil {
 					break
 				}
@@ -275,6 +406,29 @@ func c02CheckCall(rc *RunCtx, x *Call, final bool) {
 	if !found {
 		rc.Fail("timely_reply_not_returned", "call %d (%s): returned nonce %d, but the replies consumed in time were %v", x.Idx, x.QName, nonce, x.Timely)
 	}
+}
+
+// c02CheckHealthy (history family): the server answers every query within 2.5 s
+// and never closes the connection, and the connection's idle timeout is far
+// away. A call whose context is still live must therefore not fail: if it does,
+// the client's liveness detection has killed a healthy connection and with it a
+// reply that was on its way in time.
+func c02CheckHealthy(rc *RunCtx, x *Call) {
+	if !x.Done || x.Err == nil {
+		return
+	}
+	if len(x.Txs) == 0 {
+		// never transmitted: the connection had been closed while idle, which
+		// ends this history (idle closes are not this property's business)
+		simrt.Probe("c02.history_ended_by_idle_close")
+		return
+	}
+	if x.Deadline > 0 && x.EndAt >= x.Deadline {
+		simrt.Probe("c02.abandoned_query") // its late reply will match no waiter
+		return
+	}
+	rc.Fail("call_failed_on_healthy_connection", "call %d (%s): started t=%v, failed at t=%v with %q although its context was live (deadline %v), the server answers within 2.5s and never closed the connection",
+		x.Idx, x.QName, x.StartAt, x.EndAt, x.Err, x.Deadline)
 }
 
 func c02Post(rc *RunCtx, res simrt.Result) {
